@@ -62,6 +62,41 @@ Theorem C08_add_cds_contained : forall depth tbl i g tbl', add_cds depth tbl i g
 Proof. exact add_cds_contained. Qed.
 Print Assumptions C08_add_cds_contained.
 
+(* THE HISTORY THEOREM.  For every list of operations (add_cds_feature / add_protocluster, add_candidate_cluster,
+   add_subregion / add_region in ANY interleaving) that satisfies the guard - single-part genes none of which is
+   strictly nested in another (this excludes the two recorded look-up classes nested_genes and
+   origin_spanning_gene), single-part areas, unique identifiers - and that the record accepts (no exception),
+   the final record has: exactly the genes of the history; exactly its areas; every area lists exactly the genes
+   its location contains; every protocluster's definition genes are exactly the genes inside its location and
+   core that carry a CORE annotation for its product (string equality); every region is in the region list; every
+   gene is linked to the region that contains it, and only to such a region.  The right-hand sides do not
+   mention the order of the operations.  Composes C08_lookup (area after genes), C08_link_window + the
+   exhaustive scan (gene after areas) and C08_add_cds_contained. *)
+Theorem C08_membership_order_independent : forall ops st,
+  history_guard ops = true -> exec ops = Ok st ->
+  (forall g, In g (sgenes st) <-> In g (ops_genes ops)) /\
+  map static (sareas st) = map static (ops_areas ops) /\
+  (forall a, In a (sareas st) ->
+     (forall x, In x (amem a) <-> In x (spec_members (ops_genes ops) a)) /\
+     (akind a = K_PROTO -> forall x, In x (adef a) <-> In x (spec_defs (ops_genes ops) a))) /\
+  (forall a, In a (sareas st) -> akind a = K_REGION -> In a (areas_of (sareas st) (sregs st))) /\
+  (forall g r, In g (ops_genes ops) -> In r (areas_of (sareas st) (sregs st)) ->
+     contains (aloc r) (gloc g) = true -> link_of (slink st) (gid g) = Some (aid r)) /\
+  (forall g i, In g (ops_genes ops) -> link_of (slink st) (gid g) = Some i ->
+     exists r, In r (areas_of (sareas st) (sregs st)) /\ aid r = i /\ contains (aloc r) (gloc g) = true).
+Proof. exact membership_order_independent. Qed.
+Print Assumptions C08_membership_order_independent.
+
+(* ... hence two accepted histories over the same genes agree on the members and the definition genes of every
+   area they have in common, whatever the two insertion orders were *)
+Theorem C08_build_order_irrelevant : forall ops1 ops2 st1 st2,
+  history_guard ops1 = true -> history_guard ops2 = true -> exec ops1 = Ok st1 -> exec ops2 = Ok st2 ->
+  (forall g, In g (ops_genes ops1) <-> In g (ops_genes ops2)) ->
+  forall a1 a2, In a1 (sareas st1) -> In a2 (sareas st2) -> static a1 = static a2 ->
+    (forall x, In x (amem a1) <-> In x (amem a2)) /\ (forall x, In x (adef a1) <-> In x (adef a2)).
+Proof. exact build_order_irrelevant. Qed.
+Print Assumptions C08_build_order_irrelevant.
+
 (* ---- non-vacuity ---- *)
 Example C08_ex_lookup_guard :
   let genes := [mkGene 0 [mkPart 2 9 1] []; mkGene 1 [mkPart 2 12 (-1)] []; mkGene 2 [mkPart 5 12 1] []; mkGene 3 [mkPart 11 20 1] []] in
@@ -72,7 +107,7 @@ Proof. vm_compute. repeat split. Qed.
 
 (* the witness of the repaired defect F30: a gene equal to the first of three regions lies in the window *)
 Example C08_ex_link_window :
-  let mk := fun i s e => mkArea i K_REGION [mkPart s e 1] [] 0 [] [] [] in
+  let mk := fun i s e => mkArea i K_REGION [mkPart s e 1] [] [] [] [] [] in
   let regs := [mk 1 100 200; mk 2 400 500; mk 3 700 800] in
   let g := mkGene 0 [mkPart 100 200 1] [] in
   RS regs /\ (forall r, In r regs -> simple_area r) /\ simple_gene g = true /\
@@ -90,10 +125,34 @@ Qed.
 
 (* a history that exercises both directions ends in the specified state *)
 Example C08_ex_history :
-  let sub := mkArea 100 K_SUB [mkPart 0 30 1] [] 0 [] [] [] in
+  let sub := mkArea 100 K_SUB [mkPart 0 30 1] [] [] [] [] [] in
   let g0 := mkGene 0 [mkPart 2 9 1] [] in
   let g1 := mkGene 1 [mkPart 12 40 1] [] in
   let g2 := mkGene 2 [mkPart 10 30 (-1)] [] in
   exists st, exec [OGene g0; OGene g1; OArea sub; OGene g2] = Ok st /\
              map amem (sareas st) = [[0; 2]].
 Proof. eexists. split; vm_compute; reflexivity. Qed.
+
+(* the guard of the history theorem is met by a history with overlapping protoclusters whose product names are
+   prefixes of each other, a candidate cluster, a sub-region and a region, genes before, between and after the
+   areas; the gene with a CORE annotation for "AB" only is NOT a definition gene of the "ABC" protocluster *)
+Example C08_ex_history_guard :
+  let AB := [65; 66] in let ABC := [65; 66; 67] in
+  let p1 := mkArea 100 K_PROTO [mkPart 0 40 1] [mkPart 5 30 1] AB [] [] [] in
+  let p2 := mkArea 101 K_PROTO [mkPart 5 60 1] [mkPart 10 50 1] ABC [] [] [] in
+  let cc := mkArea 102 K_CAND [mkPart 0 60 1] [] [] [100; 101] [] [] in
+  let sb := mkArea 103 K_SUB [mkPart 70 90 1] [] [] [] [] [] in
+  let r1 := mkArea 104 K_REGION [mkPart 70 90 1] [] [] [103] [] [] in
+  let r0 := mkArea 105 K_REGION [mkPart 0 60 1] [] [] [102] [] [] in
+  let g0 := mkGene 0 [mkPart 10 20 1] [AB] in
+  let g1 := mkGene 1 [mkPart 12 30 (-1)] [ABC; AB] in
+  let g2 := mkGene 2 [mkPart 35 50 1] [ABC] in
+  let g3 := mkGene 3 [mkPart 70 90 1] [] in
+  let ops := [OGene g1; OArea p1; OGene g3; OArea p2; OArea cc; OGene g0; OArea sb; ORegion r1; ORegion r0; OGene g2] in
+  history_guard ops = true /\
+  exists st, exec ops = Ok st /\
+    map (fun a => (aid a, amem a, zsort (adef a))) (sareas st) =
+      [(100, [1; 0], [0; 1]); (101, [1; 0; 2], [1; 2]); (102, [1; 0; 2], []); (103, [3], []); (104, [3], []); (105, [0; 1; 2], [])] /\
+    sregs st = [105; 104] /\
+    map (fun g => link_of (slink st) (gid g)) (sgenes st) = [Some 105; Some 105; Some 105; Some 104].
+Proof. cbv zeta. split; [vm_compute; reflexivity|]. eexists. split; [vm_compute; reflexivity|]. vm_compute. repeat split. Qed.
